@@ -70,6 +70,10 @@ pub struct Counters {
     pub statements_by_kind: BTreeMap<String, u64>,
     pub max_depth_executed: usize,
     pub attributes: u64,
+    /// attribute values that reached a node or edge (shorthand applications excluded)
+    pub attr_values_added: u64,
+    /// executions of statements whose effect lazy mode defers (edge, attr, print)
+    pub deferred_statements: u64,
     pub scan_iterations: u64,
     pub matches: u64,
     pub matches_per_stanza: Vec<u64>,
@@ -88,6 +92,10 @@ pub struct Counters {
     pub if_no_arm: u64,
     pub calls: u64,
     pub block_runs: Vec<(usize, usize)>,
+    /// executions of `node` statements: (statement id, full-match node of the match, graph node)
+    pub node_stmt_runs: Vec<(usize, Option<usize>, usize)>,
+    /// for every edge the `edge` statements that named it, in execution order
+    pub edge_creators: BTreeMap<(usize, usize), Vec<usize>>,
 }
 
 pub enum Outcome {
@@ -123,6 +131,7 @@ pub struct Interp<'a, 't> {
     chain: Vec<usize>,
     cur_stanza: usize,
     cur_match: usize,
+    cur_root: Option<usize>,
     other_stmt: Option<usize>,
     /// scoped variables read before any definition existed anywhere (order sensitivity marker)
     pub order_sensitive_reads: u64,
@@ -157,6 +166,7 @@ impl<'a, 't> Interp<'a, 't> {
             chain: Vec::new(),
             cur_stanza: 0,
             cur_match: 0,
+            cur_root: None,
             other_stmt: None,
             order_sensitive_reads: 0,
             sh_depth: 0,
@@ -202,6 +212,7 @@ impl<'a, 't> Interp<'a, 't> {
             self.cur_stanza = si;
             for (mi, m) in matches[si].iter().enumerate() {
                 self.cur_match = mi;
+                self.cur_root = m.root;
                 self.counters.matches += 1;
                 self.counters.matches_per_stanza[si] += 1;
                 self.counters.block_runs.push((si, mi));
@@ -247,6 +258,9 @@ impl<'a, 't> Interp<'a, 't> {
         if depth > self.counters.max_depth_executed {
             self.counters.max_depth_executed = depth;
         }
+        if matches!(s.kind, StmtKind::Edge(..) | StmtKind::AttrNode(..) | StmtKind::AttrEdge(..) | StmtKind::Print(..)) {
+            self.counters.deferred_statements += 1;
+        }
         match &s.kind {
             StmtKind::Let(v, e) => {
                 let val = self.expr(e, env)?;
@@ -263,11 +277,14 @@ impl<'a, 't> Interp<'a, 't> {
             StmtKind::Node(v) => {
                 let n = self.graph.add_node();
                 self.counters.nodes_created += 1;
+                let root = self.cur_root;
+                self.counters.node_stmt_runs.push((s.id, root, n));
                 self.define(v, MVal::GNode(n), false, env, s.id)
             }
             StmtKind::Edge(a, b) => {
                 let a = self.gnode(a, env)?;
                 let b = self.gnode(b, env)?;
+                self.counters.edge_creators.entry((a, b)).or_default().push(s.id);
                 if self.graph.nodes[a].edges.contains_key(&b) {
                     self.counters.edge_recreated += 1;
                 } else {
@@ -445,6 +462,7 @@ impl<'a, 't> Interp<'a, 't> {
             self.sh_depth -= 1;
             return Ok(());
         }
+        self.counters.attr_values_added += 1;
         let target: &mut Attrs = match sink {
             None => &mut self.graph.nodes[node].attrs,
             Some(s) => match self.graph.nodes[node].edges.get_mut(&s) {
